@@ -386,3 +386,29 @@ package openapi3
 //@   loop 0 invariant @C20 hasFields ==> reflNumField(val) > 0
 //@   option safety-tags C20
 //@   tag C20
+
+// C02: a component that is a reference to a whole file is read from that file, and the references
+// nested in it are relative to that file: every nested resolver is handed the location the element
+// was loaded from (and the containing document's location when nothing was loaded).
+//@ spec inFileOf(argp *url.URL, dp *url.URL) bool := called("(*Loader).loadSingleElementFromURI") ? argp == lastResult("(*Loader).loadSingleElementFromURI", 0) : argp == dp
+//@ spec inLoadedFile(argp *url.URL) bool := called("(*Loader).loadSingleElementFromURI") ==> argp == lastResult("(*Loader).loadSingleElementFromURI", 0)
+//@ extend func (*Loader).resolveHeaderRef
+//@   atcall @C02 (*Loader).resolveSchemaRef [nested-refs-resolved-against-the-file-they-are-in] inFileOf(arg_documentPath, documentPath)
+//@   atcall @C02 (*Loader).resolveExampleRef [nested-refs-resolved-against-the-file-they-are-in] inFileOf(arg_documentPath, documentPath)
+//@ extend func (*Loader).resolveParameterRef
+//@   atcall @C02 (*Loader).resolveSchemaRef [nested-refs-resolved-against-the-file-they-are-in] inFileOf(arg_documentPath, documentPath)
+//@   atcall @C02 (*Loader).resolveExampleRef [nested-refs-resolved-against-the-file-they-are-in] inFileOf(arg_documentPath, documentPath)
+//@ extend func (*Loader).resolveRequestBodyRef
+//@   atcall @C02 (*Loader).resolveExampleRef [nested-refs-resolved-against-the-file-they-are-in] inFileOf(arg_documentPath, documentPath)
+//@   atcall @C02 (*Loader).resolveEncodingHeaders [nested-refs-resolved-against-the-file-they-are-in] inFileOf(arg_documentPath, documentPath)
+//@   atcall @C02 (*Loader).resolveSchemaRef [nested-refs-resolved-against-the-file-they-are-in] inFileOf(arg_documentPath, documentPath)
+//@ extend func (*Loader).resolveResponseRef
+//@   atcall @C02 (*Loader).resolveHeaderRef [nested-refs-resolved-against-the-file-they-are-in] inFileOf(arg_documentPath, documentPath)
+//@   atcall @C02 (*Loader).resolveExampleRef [nested-refs-resolved-against-the-file-they-are-in] inFileOf(arg_documentPath, documentPath)
+//@   atcall @C02 (*Loader).resolveEncodingHeaders [nested-refs-resolved-against-the-file-they-are-in] inFileOf(arg_documentPath, documentPath)
+//@   atcall @C02 (*Loader).resolveSchemaRef [nested-refs-resolved-against-the-file-they-are-in] inFileOf(arg_documentPath, documentPath)
+//@   atcall @C02 (*Loader).resolveLinkRef [nested-refs-resolved-against-the-file-they-are-in] inFileOf(arg_documentPath, documentPath)
+//@ extend func (*Loader).resolveSchemaRef
+//@   atcall @C02 (*Loader).resolveSchemaRef [nested-refs-of-a-loaded-file-resolved-against-it] inLoadedFile(arg_documentPath)
+//@ extend func (*Loader).resolveCallbackRef
+//@   atcall @C02 (*Loader).resolvePathItemRef [nested-refs-resolved-against-the-file-they-are-in] inFileOf(arg_documentPath, documentPath)
